@@ -304,7 +304,7 @@ def gen_history(rng, kind):
 # running a script and parsing the driver's output
 # ------------------------------------------------------------------------------------------
 class Block(object):
-    __slots__ = ("idx", "op", "out", "err", "ret", "mod", "prep", "exe", "res", "P", "M", "V", "refused", "exit")
+    __slots__ = ("idx", "op", "out", "err", "ret", "mod", "prep", "exe", "res", "P", "M", "V", "refused", "exit", "died")
 
     def __init__(self, idx, op):
         self.idx, self.op = idx, op
@@ -312,6 +312,7 @@ class Block(object):
         self.ret = self.mod = self.prep = self.exe = self.res = self.refused = None
         self.P, self.M, self.V = {}, {}, {}
         self.exit = False
+        self.died = False
 
 
 def unhex(h):
@@ -365,6 +366,8 @@ def parse_output(text):
             cur.refused = ln
         elif ln.startswith("EXIT-IN-CALL"):
             cur.exit = True
+        elif ln.startswith("DIED-IN-CALL"):
+            cur.died = True
         elif ln.startswith("P "):
             p = ln.split(" ", 2)
             cur.P[int(p[1])] = p[2]
@@ -412,6 +415,14 @@ def run_script(drv, workdir, lines):
             os.unlink(fp)
     if "runtime error:" in se or "Sanitizer" in se:
         r.san += se
+    r.last_words = ""
+    for suf in (".cap.err", ".cap.out"):
+        if os.path.exists(path + suf):          # left behind: the process was killed inside a call
+            if suf == ".cap.err":
+                r.last_words = open(path + suf, errors="replace").read()[-3000:]
+            os.unlink(path + suf)
+    if "runtime error:" in r.last_words or "Sanitizer" in r.last_words:
+        r.san += r.last_words
     os.unlink(path)
     return r
 
@@ -656,7 +667,7 @@ def evaluate(env, hist, want=None):
                          at_op=last.idx if last else None, report=r.san[:1800]))
     elif r.rc != 0 and not (blocks and blocks[-1].exit):
         F.append(finding("crash:rc=%d" % r.rc, "the driver process ended with status %d during `%s`" % (
-            r.rc, " ".join(blocks[-1].op) if blocks else "?"), stderr=r.stderr[-800:]))
+            r.rc, " ".join(blocks[-1].op) if blocks else "?"), stderr=r.stderr[-800:], last_words=r.last_words[-800:]))
     # bookkeeping of handles while walking the blocks
     sim = Sim()
     prev_P, prev_V = {}, {}
@@ -1038,6 +1049,9 @@ def run(ctx):
         ctx.correspondence_broken("ocaml-build", log[-2000:])
         return
     drv = common.cc_driver("apidrive", ["api/apidrive.c"], lib)
+    for fn in os.listdir(ctx.outdir):        # replay files of earlier runs
+        if fn.startswith("replay_") or fn == "broken_obligations.json":
+            os.unlink(os.path.join(ctx.outdir, fn))
     workdir = os.path.join(ctx.outdir, "work")
     shutil.rmtree(workdir, ignore_errors=True)
     os.makedirs(workdir)
